@@ -21,6 +21,7 @@ from ..fmtdec import template_of_call
 from ..prov import Prov
 from . import gram, finder
 from .c14 import pure_local
+from ..grammar import flatten
 
 FIND = finder.FIND
 
@@ -273,8 +274,21 @@ def run(ctx):
                         pc = parses[0]
                         chn, rt = call_chain(f, pc.args[0])
                         nn = [x.name.split("::")[-1] for x in chn]
-                        ctx.check(nn[:1] == ["as_str"] and not any(n in ("trim", "trim_start", "trim_end", "replace", "trim_matches", "trim_start_matches") for n in nn), "C13-R1", "value-text",
-                                  "the parsed text is the value span's text, unmodified (chain %s)" % nn[:3], pc.where())
+                        # the value span's text, with nothing but trailing layout removed: the grammar's kvp_value runs up to
+                        # the next `,` / `;`, so `ref = 7 ;` has the value text "7 " (G9|tail-stops) and must still read as 7
+                        core = [n for n in nn if n not in ("trim_end", "trim")]
+                        ctx.check(core[:1] == ["as_str"] and not any(n in ("trim_start", "replace", "trim_matches", "trim_start_matches", "trim_end_matches", "split", "split_whitespace", "splitn", "rsplit", "next", "get", "index") for n in nn[: nn.index("as_str") + 1] if "as_str" in nn), "C13-R1", "value-text",
+                                  "the parsed text is the value span's text, at most trimmed of trailing layout (chain %s)" % nn[:3], pc.where())
+                        tail_has_layout = True
+                        if "kvp_value" in g.rules:
+                            parts_ = g.seq_of("kvp_value")
+                            if len(parts_) == 2 and parts_[1]["k"] == "rep":
+                                tl = flatten(parts_[1]["e"], "seq")
+                                negs = [x for x in g.choices_of(tl[0]) if x["k"] == "neg"] if tl else []
+                                stops = {a_["v"] for n_ in negs for a_ in g.choices_of(n_["e"]) if a_["k"] == "str"}
+                                tail_has_layout = not ({" ", "\t", "\n"} <= stops)
+                        ctx.check((not tail_has_layout) or any(n in ("trim_end", "trim") for n in nn), "C13-R1", "value-layout",
+                                  "white space between the value and its `,` / `;` is part of the value span (the grammar's tail stops only at the separators), so it is trimmed before parsing (chain %s)" % nn[:3], pc.where())
                         # Err -> None, Ok(v) -> Some(v)
                         for b2 in sorted(region):
                             es = enum_switch(f, b2)
@@ -396,6 +410,30 @@ def run(ctx):
                 sep_ok = many == {", "} and none == {"; "}
                 detail = "len == 0 → %s, else %s" % (sorted(none), sorted(many))
         ctx.check(sep_ok, "C13-R3", "separators", "terminator is `; ` when it is the only key-value and `, ` otherwise (%s)" % detail, f.where(nb))
+        # what is counted: one element per key of the statement's key-value list (with or without a value) —
+        # a shorthand capture `user;` is a key-value too, and `ref = N; user;` would close the list early
+        if len(gts) == 1 and is_len:
+            vroot = lenroot[1]
+            V = None
+            if lenroot[0] and lenroot[0][0].args:
+                V = pure_local(f, lenroot[0][0].args[0])
+            pr_ = Prov(f)
+            pushes = [c for c in f.calls if c.matches(r"Vec::<.*>::push$") and V is not None and c.args and op_place(c.args[0]) is not None
+                      and (V in pr_.bases(op_place(c.args[0])["l"]) or any(_same_value(f, V, b_) for b_ in pr_.bases(op_place(c.args[0])["l"])))]
+            key_arm = None
+            key_loop = None
+            for (hb, arms_, other_, asr_) in finder.handled_rules(f, facts):
+                if "kvp_key" in arms_:
+                    key_arm = arms_["kvp_key"]
+                    lp = loop_containing(f, hb)
+                    nxs = [c for c in f.calls_to(r"Iterator>::next$") if c.bb in lp and c.bb in dom.get(hb, ())]
+                    key_loop = sorted(nxs, key=lambda c: -len(dom[c.bb]))[0] if nxs else None
+            okc = key_arm is not None and key_loop is not None and bool(pushes)
+            if okc:
+                okc = cfg.path(f, key_arm, [key_loop.bb], avoid=[c.bb for c in pushes]) is None and all(key_arm in dom.get(c.bb, ()) for c in pushes)
+            ctx.check(okc, "C13-R3", "kv-count-complete",
+                      "the list whose length picks the terminator gets exactly one element for every key of the statement (pushed in the kvp_key arm on every path, nowhere else): %d push site(s)" % len(pushes),
+                      f.where(nb))
         # total = number of collected key-values (same vec that is searched)
     # ---- R4 anchor ------------------------------------------------------------------------
     rule_anchor_provenance(ctx, facts, g, "C13-R4")
@@ -493,6 +531,7 @@ def run(ctx):
     gram.g6_modifiers(ctx, g, "C13-G")
     gram.g14_order(ctx, g, "C13-G")
     gram.g16_strings_atomic(ctx, g, "C13-G")
+    gram.g17_string_escapes(ctx, g, "C13-G")
     ctx.assume("the log crate's kv grammar: `target: expr,` first, then `k = v` pairs separated by `,` and terminated by `;`, then the format string")
     return {
         "explanation": "Decision tables of the structured branch extracted from rustc MIR of the finder (key comparison, value "
